@@ -84,6 +84,7 @@ def checkPipe (c : Case) : VM Unit := do
   vstat "c10.networks" 1
   vstat "c10.tourhyps" (if tourHypsB nw then 1 else 0)
   vstat "c10.formhyps" (if formHypsB nw then 1 else 0)
+  vstat "c10.limithyps" (if formHypsB nw && ovfNodeB nw then 1 else 0)
   vstat "c05.depotnodes" (if depotNodesB nw then 1 else 0)
   vstat "pipe.checked-ok" (if cc == "ok" then 1 else 0)
   -- stage snapshots
